@@ -30,3 +30,9 @@ contract("_TextualFinder._normal_search", source=M + "_TextualFinder._normal_sea
                             "forall(lambda k, p: implies(0 <= k and k < len(_yielded) - 1 and _yielded[k] < p and p < _yielded[k + 1], not W(source, self.name, p)))",
                             "forall(lambda p: implies(len(_yielded) > 0 and 0 <= p and p < _yielded[0], not W(source, self.name, p)))"]}},
          note="the yielded offsets are exactly the whole-word occurrences of the name, strictly increasing")
+
+from bounded import c02_binder as _bb, c01_projects as _bp
+bounded_check(name="c02-find-binder", props=["C02"], fn=_bb.find_case, domain=_bb.domain, exhaustive=True,
+              label="B3: 30 single-module programs (one per scoping feature): find_occurrences at every token of every binding against the reference binder")
+bounded_check(name="c02-projects", props=["C02"], fn=_bp.run_case, domain=_bp.domain, exhaustive=True,
+              label="B3: 9 multi-module projects: occurrence sets independent of the query point; rename from every occurrence keeps the output")
